@@ -55,13 +55,35 @@ package meta
 //@ macro inRange(r *Range, v val.Value) bool = len(r.Entries) == 0 || (exists k int :: 0 <= k && k < len(r.Entries) && inEntry(r.Entries[k], v))
 //@ macro wfRange(r *Range, v val.Value) bool = r != nil && (forall k int :: 0 <= k && k < len(r.Entries) ==> wfEntry(r.Entries[k], v))
 
+// leaf-list values: every element is checked on its own (rangeableList, llen, litem: val/contracts_verif.go)
+//@ interface val.Listable.Len() int
+//@   assigns nothing
+//@   ensures result == llen(self)
+//@ interface val.Listable.Item(index int) val.Value
+//@   requires 0 <= index && index < llen(self)
+//@   assigns nothing
+//@   ensures result == litem(self, index)
+
+// opaque names (same meaning) so that proofs about loops and lists treat a scalar check as one atom
+//@ opaque okRange(r *Range, x val.Value) bool = inRange(r, x)
+//@ opaque wfRangeS(r *Range, x val.Value) bool = wfRange(r, x)
+
+// the same for scalar and leaf-list values: each element of a list must be in range on its own
+//@ macro inRangeV(r *Range, v val.Value) bool = rangeable(v) ? okRange(r, v) : (len(r.Entries) == 0 || (forall j int :: 0 <= j && j < llen(v) ==> okRange(r, litem(v, j))))
+//@ macro wfRangeV(r *Range, v val.Value) bool = (rangeable(v) && wfRangeS(r, v)) || (rangeableList(v) && r != nil && (forall j int :: 0 <= j && j < llen(v) ==> wfRangeS(r, litem(v, j))))
+//@ opaque okRangeV(r *Range, x val.Value) bool = inRangeV(r, x)
+//@ opaque wfRangeO(r *Range, x val.Value) bool = wfRangeV(r, x)
+
 //@ func (r *Range) CheckValue(v val.Value) error
 //@   mode int
 //@   property C05 C13
-//@   requires rangeable(v) && wfRange(r, v)
+//@   requires wfRangeO(r, v)
 //@   assigns nothing
-//@   loop 1 invariant false
+//@   loop 1 invariant rangeableList(v) && 0 <= i && i <= llen(v)
+//@   loop 1 invariant forall j int :: 0 <= j && j < i ==> okRange(r, litem(v, j))
+//@   loop 1 decreases llen(v) - i
 //@   loop 2 invariant -1 <= rangeindex && rangeindex < len(r.Entries)
 //@   loop 2 invariant forall k int :: 0 <= k && k <= rangeindex ==> !inEntry(r.Entries[k], v)
 //@   loop 2 decreases len(r.Entries) - rangeindex
-//@   ensures (result == nil) == inRange(r, v)
+//@   ensures (result == nil) == inRangeV(r, v)
+//@   ensures (result == nil) == okRangeV(r, v)
